@@ -32,7 +32,7 @@ class P(Prop):
             "input; non-trivial = the transform changed the graph")
     assumptions = ["set-iteration order inside the patched run is the model's ordBy(seed) family; the search also runs with "
                    "the interpreter's real hash order"]
-    budget = {"quick": (150, 150), "thorough": (2500, 2500)}
+    budget = {"quick": (300, 300), "thorough": (2500, 2500)}
 
     def gen_case(self):
         rng = self.rng
